@@ -24,7 +24,7 @@ CHECKS = {
    category="model_checking", design_ref="DESIGN.md §5 C05",
    technique="enumeration of values × codecs × link prototypes × implementations against hand-assembled CIDs, plus explicit-state search over store/compute/load histories on the real LinkSystem (state = stored set + last operation, to fixpoint) and all operation sequences to depth 3/4",
    text="Store = ComputeLink = hand-assembled CID (sha2-256/512/identity by crypto/*; all 80+ registered hashers for self-consistency), independent of implementation and (DAG codecs) of insertion order; every load function returns the canonical value and raw bytes hashing to the link; every answer is the same in every explored history.",
-   note="Trusted: crypto/sha256, crypto/sha512, go-multihash for other hash functions. dag-json/json domain excludes integral floats (recorded under C04)."),
+   note="Trusted: crypto/sha256, crypto/sha512, go-multihash for other hash functions. dag-json/json domain excludes integral floats (recorded under C04). Typed (bindnode) nodes of the schema families are stored and linked too (both views; struct-keyed maps through their representation view only)."),
  "C06": dict(
    category="fault_enumeration", design_ref="DESIGN.md §5 C06", engine="fault",
    technique="exhaustive single-fault enumeration on the storage seam: every bit flip, truncation, extension, substitution, read error offset and chunking of every block × 4 load functions; every failing Write call, accessor failure, opener and commit error on Store",
@@ -34,37 +34,37 @@ CHECKS = {
    category="model_checking", design_ref="DESIGN.md §5 C07",
    technique="bounded-exhaustive enumeration of selector ASTs (≤3/4 clauses + targeted union/recursion families) × block graphs (≤4/5 nodes, every cut into blocks, dangling/shared links), each walked by the real WalkAdv/WalkMatching and compared with an independent substitution-style reference denotation",
    text="Every (selector, graph) pair in the bound is compiled by the real parser and walked over real blocks stored in a real link system; the visit sequence (path, node content, reason), the link-load sequence and the matching-only walk must equal the reference denotation written by substitution from the documented semantics.",
-   note="Trusted: reference denotation mc/trav/refwalk.go. Known finding: one depth counter per merged union (known_findings.json). ExploreInterpretAs/ADL reification and conditions other than stop-at-link are outside the alphabet."),
+   note="Trusted: reference denotation mc/trav/refwalk.go. Known finding: one depth counter per merged union (known_findings.json). ExploreInterpretAs/ADL reification and conditions other than stop-at-link are outside the alphabet. Stop-at-link conditions are enumerated with every link of the graph as the condition on recursions reaching their edge after 1–3 steps."),
  "C14": dict(
    category="model_checking", design_ref="DESIGN.md §5 C14",
    technique="exhaustive enumeration of graphs × every visit of every walk, every node position, every path ≤3 segments over a 10-segment alphabet, every segment string ≤3 bytes; Get/Focus/stepwise lookup on the real code vs a reference resolver",
    text="For every visit of every enumerated walk (and WalkLocal) the reported path, as reported and re-parsed, must resolve through Get, Focus and segment-by-segment lookup (loading links) to the visited node; every position's own path resolves in string, int and parsed form; every short path succeeds exactly when the reference resolver finds it; String/ParsePath round-trips every clean segment sequence.",
-   note="Trusted: reference resolver trav.Resolve. Non-canonical numerals on lists are unspecified (agreement only)."),
+   note="Trusted: reference resolver trav.Resolve. Non-canonical numerals on lists are unspecified (agreement only). Also: comb graphs to depth 6/18 whose visit paths are resolved after the walk; every program of Path operations to depth 4/5 (append-only 6/8) with every live path re-checked after every step; typed nodes (reflection binding, both views) as walk roots."),
  "C15": dict(
    category="model_checking", design_ref="DESIGN.md §5 C15",
    technique="exhaustive enumeration of every setting of each traversal control (node budget 0..|U|+1, link budget 0..|L|+1, start-at every visited path, visit-once, every skip set ≤2/3) for every (graph, selector) pair, compared with the prefix/suffix/subsequence of the unrestricted real walk",
    text="Each control is applied alone on the real walk; visits, loads and the error must be exactly the prefix (budgets), tail (start-at), or subsequence (once/skip) of the unrestricted sequence computed for the same pair, including which blocks may be loaded.",
-   note="Uses the reference denotation only to attribute visits to blocks, and only where the real unrestricted walk equals it. Preloader interaction is excluded as the property states."),
+   note="Uses the reference denotation only to attribute visits to blocks, and only where the real unrestricted walk equals it. Preloader interaction is excluded as the property states. Budgets, visit-once and skip sets are also applied to the transforming walk (identity function; pairs with a failing load or a callback order different from the visit order are left out and counted). Visit-once together with a start path is checked only by what each clause says on its own."),
  "C16": dict(
    category="model_checking", design_ref="DESIGN.md §5 C16",
    technique="exhaustive enumeration of graphs × target paths ≤2/3 segments × replacements × createParents, selector-driven transforms for every selector ≤3 clauses × 3 transform functions, and all 2-step transform sequences, against a functional-update reference with hand-hashed re-linking",
    text="Every focused transform in the bound must equal the reference functional update (content, order, links recomputed by hand), leave the input node and blocks unchanged, call the callback once with the node at the target, fail exactly where the target is unreachable; walking transforms must replace exactly the matched nodes and re-link across links; chained transforms never disturb earlier results.",
-   note="Trusted: reference update in mc/props/c16, reference DAG-CBOR encoder + crypto/sha256 for new links. Root replacement is limited to what the root's prototype accepts; root removal and non-canonical indices are unspecified."),
+   note="Trusted: reference update in mc/props/c16, reference DAG-CBOR encoder + crypto/sha256 for new links. Root replacement is limited to what the root's prototype accepts; root removal and non-canonical indices are unspecified; a tree consisting of the null singleton alone is not a root (its prototype cannot build). Each compiled selector is used twice per case."),
  "C01": dict(
    category="model_checking", design_ref="DESIGN.md §5 C01",
    technique="bounded-exhaustive enumeration of values × builder programs by deviation bound (default route, every single and every pair of route deviations, Reset-reuse) executed on the real builders, read back by a complete observer; all-pairs DeepEqual/Copy agreement across implementations",
    text="Every value of the bounded universe is assembled through every program within deviation bound 2 (entry shortcut vs key/value assembly with string or node keys, scalar assign vs AssignNode of basic/kind-specific/foreign nodes, size hints -1/0/exact+2, fresh vs Reset-reused builder); the result must read back as exactly that value with all access forms agreeing and wrong-kind accessors erroring; DeepEqual and Copy must agree with abstract equality on all pairs of a 200+-value set across implementation pairs.",
-   note="Generic implementations (basicnode Any/kind prototypes, foreign refnode as source). Typed implementations are covered by C08. uint64>MaxInt64 is outside DeepEqual/Copy."),
+   note="Generic implementations (basicnode Any/kind prototypes, foreign refnode as source), plus every single route deviation (incl. AssignNode of a sub-node of an earlier instance of the same engine) on bindnode builders of the quick schema families at both levels; views of typed nodes and generated code are C08. uint64>MaxInt64 is outside DeepEqual/Copy."),
  "C11": dict(
    category="model_checking", design_ref="DESIGN.md §5 C11", engine="bfs",
    technique="exhaustive enumeration of post-build operation sequences (depth 2/3 over 17 operations) on nodes from ~100 producer classes, with a complete-snapshot invariant re-evaluated twice after every step on every node sharing structure",
    text="For every producer (builder route classes, decoders, loads, reader-backed bytes, subset matches, transform results) every operation sequence in the bound is executed; after each step every tracked node must read (all accessors, twice) exactly as in the snapshot taken when it was made.",
-   note="Trusted: the observer mc/ref/observe.go. Typed (bindnode) producers are covered in the typed check. Writes by the caller into handed-back slices are excluded as the property states."),
+   note="Trusted: the observer mc/ref/observe.go. Typed producers (bindnode nodes of one type per strategy from the type-level builder, the representation builder and the decoder; the checked-in generated package) are tracked through both views. The observer reads every value an iterator hands out both when Next returns it and after the iterator moved on. Writes by the caller into handed-back slices are excluded as the property states."),
  "C12": dict(
    category="model_checking", design_ref="DESIGN.md §5 C12", engine="bfs",
    technique="explicit-state breadth-first search over assembler call sequences (≤10/14 calls, nesting ≤2/3) with the contract's state machine as reference model; every transition replayed on a fresh real builder; repeated-key and wrong-kind rejections injected at every position through all three key routes",
    text="All legal call sequences within the bound are explored; each call must succeed, each injected repeated key must return ErrRepeatedMapKey from the call that supplied it and leave the assembler usable (all continuations explored, sticky rejection flag in the state), wrong kinds must error, and Build must equal the model value.",
-   note="Reference model = contract state machine in mc/props/c12. Engines: basicnode Any/Map/List (typed engines: see typed check). Misuse orders are not generated."),
+   note="Reference model = contract state machine in mc/props/c12. Engines: basicnode Any/Map/List, and bindnode + generated code (map-shaped assemblers of every family root at both levels; values incl. containers given by Assign, by AssignNode of another implementation and of the own type). States are merged by the model; one pass per key route chooses the representing path of each state, merged-away paths are completed and their product compared (DESIGN.md §7 items 16, 23): mixed-route pasts within one state are represented by those probes only. Misuse orders are not generated."),
  "C17": dict(
    category="model_checking", design_ref="DESIGN.md §5 C17", engine="bfs",
    technique="explicit-state search over put/get histories on the real stores (state = keys stored [+ last operation], to fixpoint) for pairs of adversarial keys against a Go map, with every filesystem path of fsstore logged through an import-rewritten os shim and checked for containment",
@@ -74,12 +74,12 @@ CHECKS = {
    category="fault_enumeration", design_ref="DESIGN.md §5 C18", engine="fault",
    technique="exhaustive crash-point and single/double fault enumeration over every filesystem call of 10–14 write histories on the real fsstore (process death before/after each call, torn writes, six errno answers), recovery by a new process, plus stateless exploration of all interleavings of 2–3 threads at filesystem-call granularity up to a preemption bound under a cooperative scheduler",
    text="For every history and every point the writer is killed or a call fails; a fresh store on the same directory must then find every key absent or complete, acknowledged writes present, no partial file outside the staging directory, and must accept new puts. Concurrent writer/writer, writer/reader and writer/Has harnesses are explored over every schedule within the preemption bound, with a raw-os observer evaluating the invariant after every step.",
-   note="Power loss (unsynced page cache) is not modelled. Scheduling points are the filesystem calls (the code has no other synchronisation); a free-running -race pass over the same bodies belongs to C20. EEXIST from rename is injected only when the destination exists."),
+   note="Power loss (unsynced page cache) is not modelled. Scheduling points are the filesystem calls (the code has no other synchronisation); the same thread bodies also run free in a -race build with no controller between the store and the os package (happens-before detector, 20/200 repetitions per harness) with a final audit. Histories include the storage.Put/PutStream/PutVec helpers; the fault alphabet includes cancelling the writer's context before any one call. EEXIST from rename is injected only when the destination exists."),
  "C08": dict(
    category="model_checking", design_ref="DESIGN.md §3, §5 C08",
    technique="bounded-exhaustive enumeration of schema families (every representation strategy × optional/nullable mode vectors × renames; thorough: every outer×inner strategy pair) × typed value spaces × four construction routes × engines (bindnode with inferred Go types; code generated afresh by the working tree's generator and compiled into the check), both views read completely and compared with reference schema semantics",
    text="For every root type and every value of V(T), each engine builds the value through the type-level builder, the representation builder and dag-cbor/dag-json decoding through the representation prototype; the type-level view, the representation view (all access forms), the encoded bytes and DeepEqual between routes must equal the reference semantics of the strategy.",
-   note="Trusted: reference schema semantics mc/rs (written from the specification's statement of each strategy). Undefined corners (tuple absent-then-present, delimiter inside stringjoin fields, null for Any) are outside V(T). User-declared Go types are exercised in C19."),
+   note="Trusted: reference schema semantics mc/rs (written from the specification's statement of each strategy). Undefined corners (tuple absent-then-present, delimiter inside stringjoin fields, null for Any, supplying a struct key to a type-level map builder) are outside the space. Also per value: every single route deviation at both levels; DeepEqual/Copy of both views against generic nodes of the same value. User-declared Go types are exercised in C19."),
  "C09": dict(
    category="model_checking", design_ref="DESIGN.md §5 C09",
    technique="exhaustive single-mutation closure: every conforming tree of every typed value at both levels and every local mutation of it at every position, fed through three routes (entry, key/value, relaxed dag-cbor so duplicate keys reach the assembler) into both engines; verdicts compared with reference acceptance relations",
@@ -97,7 +97,7 @@ CHECKS = {
    note="Views are hand-written per Go type (no reflection shared with bindnode). dag-json skips values with integral floats (C04 finding). Inference histories use struct/list/scalar types only (what inferSchema supports)."),
  "C20": dict(
    category="model_checking", design_ref="DESIGN.md §5 C20", engine="sched",
-   technique="stateless exploration of all interleavings (preemption bound 2/3) of every unordered pair of 28 operations on shared objects under a cooperative scheduler, with scheduling points inserted by overlay rewriting at every accessor of shared mutable state and at every sync operation (sync shim with modelled lock waits); plus exhaustive write-footprint analysis of each operation (deep fingerprints of shared objects and package-level state) and a separate free-running -race pass over all pairs",
+   technique="stateless exploration of all interleavings (preemption bound 2/3) of every unordered pair of 33 operations on shared objects under a cooperative scheduler, with scheduling points inserted by overlay rewriting at every accessor of shared mutable state and at every sync operation (sync shim with modelled lock waits); plus exhaustive write-footprint analysis of each operation (deep fingerprints of shared objects and package-level state), a footprint sweep over every selector of ≤5/6 clauses used for walks and transforms, a footprint sweep over every family root type × values (reflection binding) and generic nodes read nine ways, and a separate free-running -race pass over all pairs",
    text="(a) every schedule within the bound of every operation pair: each goroutine's result equals its result alone, no panic, no deadlock; (b) no operation on shared objects, run alone, changes any shared object or package-level mutable state unless it synchronises; (c) the race detector reports nothing on any pair with 2 and 8 goroutines.",
    note="Interleavings are explored at hook granularity (accessors of TypeSystem, Registry, Config/Progress init, lazy store initialisers, inferSchema, sync operations), not at every memory access; (b) sees persistent writes only; (c) is a free-running happens-before detector, used as the brief prescribes for unsynchronised accesses. Memory-model effects are not modelled. Known finding: reader-backed bytes nodes."),
  "C10": dict(
